@@ -2,6 +2,9 @@ module google.golang.org/protobuf/verifmc
 
 go 1.23
 
-require google.golang.org/protobuf v0.0.0
+require (
+	github.com/google/go-cmp v0.7.0
+	google.golang.org/protobuf v0.0.0
+)
 
 replace google.golang.org/protobuf => /repo
